@@ -73,7 +73,7 @@ def main():
     sh('git -C %s apply %s' % (REPO, os.path.abspath(patch)))
     try:
       for c in checks:
-        for tier in ('quick', 'thorough'):
+        for tier in (('quick',) if os.environ.get('VERIF_NO_THOROUGH') else ('quick', 'thorough')):
           t0 = time.time()
           rc, out = sh('./check %s --tier %s' % (c, tier), cwd=VERIF, timeout=7200)
           lines = [l for l in out.splitlines() if 'VIOLATION' in l or 'clause=' in l or 'OK property' in l or 'HARNESS' in l or 'KNOWN-FINDING' in l]
